@@ -234,8 +234,14 @@ def build(spec, p, symbolic, hprio=None, hprio_comp=None):
             M.fwp.append(pi)
             M.fspec.append(fsp)
         wp = BaseWorkplace("WP%d" % pi, ID=oid("wp", pi), facility_list=fs, max_space_size=val(ps.get("cap", 1), p))
-        wp.extend_targeted_task_list([M.tasks[i] for i in ps.get("targets", [])])
         M.wps.append(wp)
+    # "wp_target_order": "reversed" registers the workplaces on the tasks in the reverse of the organization's order
+    # (task.allocated_workplace_list then lists them in another order than organization.workplace_list)
+    wp_order = list(range(len(M.wps)))
+    if spec.get("wp_target_order") == "reversed":
+        wp_order.reverse()
+    for pi in wp_order:
+        M.wps[pi].extend_targeted_task_list([M.tasks[i] for i in spec["wps"][pi].get("targets", [])])
     for pi, ps in enumerate(spec.get("wps", [])):
         for ii in ps.get("inputs", []):
             M.wps[pi].append_input_workplace(M.wps[ii])
